@@ -80,3 +80,24 @@ void h_set_tweak(void)
     skinny64_set_tweak(ks, tweak, tweak_size);
     VCANARY();
 }
+
+/* C09: any overlap / any alignment of the single-block buffers: input = buf + a, output = buf + b inside one
+   15-byte object, a and b symbolic in 0..7; the real function is inlined (its loop contract applies) */
+static void verif_overlap_encrypt(uint8_t *buf, unsigned a, unsigned b, const Skinny64Key_t *ks)
+__CPROVER_requires(__CPROVER_is_fresh(buf, 15) && a <= 7 && b <= 7)
+__CPROVER_requires(__CPROVER_is_fresh(ks, sizeof(Skinny64Key_t)) && ks->rounds <= SKINNY64_MAX_ROUNDS)
+__CPROVER_assigns(__CPROVER_object_upto(buf + b, 8), __CPROVER_object_whole(VG_S), __CPROVER_object_whole(VG_RK))
+__CPROVER_ensures(V64_OUT_IS_GHOST(buf + b))
+{
+    skinny64_ecb_encrypt(buf + b, buf + a, ks);
+}
+static void verif_overlap_decrypt(uint8_t *buf, unsigned a, unsigned b, const Skinny64Key_t *ks)
+__CPROVER_requires(__CPROVER_is_fresh(buf, 15) && a <= 7 && b <= 7)
+__CPROVER_requires(__CPROVER_is_fresh(ks, sizeof(Skinny64Key_t)) && 1 <= ks->rounds && ks->rounds <= SKINNY64_MAX_ROUNDS)
+__CPROVER_assigns(__CPROVER_object_upto(buf + b, 8), __CPROVER_object_whole(VG_S), __CPROVER_object_whole(VG_RK))
+__CPROVER_ensures(V64_OUT_IS_GHOST(buf + b))
+{
+    skinny64_ecb_decrypt(buf + b, buf + a, ks);
+}
+void h_overlap_encrypt(void) { uint8_t *buf; unsigned a, b; const Skinny64Key_t *ks; verif_overlap_encrypt(buf, a, b, ks); VCANARY(); }
+void h_overlap_decrypt(void) { uint8_t *buf; unsigned a, b; const Skinny64Key_t *ks; verif_overlap_decrypt(buf, a, b, ks); VCANARY(); }
